@@ -6,6 +6,7 @@
 -/
 import ChessVerif.Lemmas.Trace
 import ChessVerif.Lemmas.TracePV
+import ChessVerif.Lemmas.EpExact
 namespace Chess.Props
 
 /-- C05 (bestmove): every accepted trace over a non-empty root move list ends with EXACTLY ONE bestmove, and it
@@ -35,6 +36,15 @@ theorem C05_bestmove_generated (root : Position) (t : List Ev) (s : AState)
     (h : acceptTrace root (genMoves root) t = .ok s) (hne : genMoves root ≠ []) :
     ∃ m, s.bestMoves = [m] ∧ m ∈ genMoves root :=
   C05_bestmove root (genMoves root) t s h hne
+
+/-- C05 (bestmove, in the rules' terms): on a well-formed root position the bestmove of a `go` without searchmoves is the code of a move
+    that is legal under the rules (C01: the generated list is exactly the legal moves) -/
+theorem C05_bestmove_legal (root : Position) (hwf : Spec.wf (Chess.absPos root) = true) (t : List Ev) (s : AState)
+    (h : acceptTrace root (genMoves root) t = .ok s) (hne : genMoves root ≠ []) :
+    ∃ m sm, s.bestMoves = [m] ∧ sm ∈ Spec.legalMoves (Chess.absPos root) ∧ codeOf (Chess.absPos root) sm = m := by
+  obtain ⟨m, hb, hm⟩ := C05_bestmove root (genMoves root) t s h hne
+  obtain ⟨sm, hsm, hc⟩ := (exact_all root hwf m).1 hm
+  exact ⟨m, sm, hb, hsm, hc⟩
 
 /-- C05 (principal variations): every pv that an accepted trace reports at the end of an iteration is a line of
     GENERATED moves from the root — each move is generated in the position where it is played — whatever stops, table
